@@ -36,7 +36,7 @@ Definition windows (c : scfg) (h : list aev) : list window :=
 Definition restrict (f : option afilter) (a : aset) : aset :=
   match f with
   | None => a
-  | Some f => filter (fun x => xorb (fst f) (bmem (fst x) (snd f))) a
+  | Some f => filter f a
   end.
 
 (** Distinct sets in order of first appearance. *)
